@@ -107,7 +107,10 @@ class CancelWorkflowHandler(StabilizeHandler[CancelWorkflow], _ControlHandler):
             self.repository.cancel(execution.id, user, reason)
             execution.cancel(user, reason)
 
-            to_cancel = [s for s in execution.top_level_stages() if not s.status.is_complete]
+            # Every unfinished stage, synthetic (before / after) stages included: a
+            # synthetic stage that has not started yet is reached by nothing else
+            # and would stay NOT_STARTED in a CANCELED workflow.
+            to_cancel = [s for s in execution.stages if not s.status.is_complete]
 
             with self.repository.transaction(self.queue) as txn:
                 if message.message_id:
